@@ -6,6 +6,7 @@
    are confined to rows dated now or earlier.  The whole-run statement over every stock algo is decided by the
    perturbation-pair suite on the implementation and by the correspondence with the model. *)
 From Coq Require Import List ZArith.
+Import ListNotations.
 Require Import BT.Num BT.Base BT.Records BT.Engine BT.Ops BT.Algos BT.Proofs.LookaheadProofs BT.Proofs.EngineLookahead.
 
 Theorem C04_tradable_reads_current_row_partial : forall N (g1 g2 : strat N (astate N)) i neg names,
@@ -75,3 +76,33 @@ Theorem C04_allocate_reads_the_current_row_only : forall N pnow comm amount upd 
   sec_allocate pnow comm amount upd (swap N D s) = rmap (swapA N D) (sec_allocate pnow comm amount upd s).
 Proof. exact sec_allocate_swap. Qed.
 Print Assumptions C04_allocate_reads_the_current_row_only.
+
+(* root.update with the bankruptcy test, the liquidation of the whole tree (allocate down every branch, the sizing search
+   included) and the nested refresh *)
+Theorem C04_root_update_reads_the_current_row_only :
+  forall N (A : Type) (F : nat -> cols N) (ps : option nat -> tree N A -> result (tree N A)) date (tr : tree N A),
+  PS N A F ps date (row_of date) -> PSA N A F ps (row_of date) -> agreeN N A F (row_of date) (fst tr) ->
+  root_update ps date (swapT N A F tr) = rmap (swapT N A F) (root_update ps date tr).
+Proof. exact root_update_swap. Qed.
+Print Assumptions C04_root_update_reads_the_current_row_only.
+
+(* the paper copies of nested strategies, at every nesting level: the commutation assumed of the paper step above is a
+   theorem once Strategy.run commutes (RUNS) and keeps columns and clock (RUNK) *)
+Theorem C04_paper_copies_add_no_lookahead :
+  forall N (A : Type) (F : nat -> cols N) (run : (option nat -> tree N A -> result (tree N A)) -> tree N A -> result (tree N A)),
+  RUNS N A F run -> RUNK N A F run -> forall l,
+  (forall date, PS N A F (paper_step_l run l) date (row_of date)) /\ (forall j, PSA N A F (paper_step_l run l) j).
+Proof. exact paper_levels. Qed.
+Print Assumptions C04_paper_copies_add_no_lookahead.
+
+(* Backtest.run's date loop: the engine (updates, bankruptcy, paper copies of every level) adds no look-ahead of its own —
+   whole-run no-look-ahead with respect to the securities' data follows from the same statement about Strategy.run *)
+Theorem C04_backtest_loop_no_lookahead_given_the_algos_partial :
+  forall N (F : nat -> cols N) (e : env N),
+  RUNS N (astate N) F (fun ps tr => strat_run ps depth_fuel e [] tr) ->
+  RUNK N (astate N) F (fun ps tr => strat_run ps depth_fuel e [] tr) ->
+  forall rows (tr : tree N (astate N)),
+  (forall i, In i rows -> agreeN N (astate N) F i (fst tr)) ->
+  bt_loop e rows (swapT N (astate N) F tr) = rmap (swapT N (astate N) F) (bt_loop e rows tr).
+Proof. exact bt_loop_swap. Qed.
+Print Assumptions C04_backtest_loop_no_lookahead_given_the_algos_partial.
